@@ -16,6 +16,7 @@ import (
 	"strings"
 
 	"github.com/nspcc-dev/neo-go/pkg/core/transaction"
+	"github.com/nspcc-dev/neo-go/pkg/util"
 	"github.com/nspcc-dev/neo-go/pkg/vm/stackitem"
 
 	"verif/harness/internal/hx"
@@ -565,7 +566,115 @@ func checkDecoded(o *hx.Out, k int, name string, t *cond, pristine bool, got tra
 	}
 }
 
+// runSignerItemCase: Signer.FromStackItem on the stack item of a generated signer, pristine or mutated.
+func runSignerItemCase(o *hx.Out, k int, r *prng.R, u *universe) {
+	accounts := append([]util.Uint160{smallHash(0xa1)}, u.hashes...)
+	sg := genSigner(r, u, accounts)
+	if r.Chance(1, 6) {
+		for n := []int{15, 16, 17}[r.Intn(3)]; len(sg.contracts) < n; {
+			sg.contracts = append(sg.contracts, u.hashes[r.Intn(len(u.hashes))])
+		}
+	}
+	p := []int{0, 0, 8, 20}[r.Intn(4)]
+	mutated := false
+	m := func() bool {
+		if r.Chance(p, 100) {
+			mutated = true
+			return true
+		}
+		return false
+	}
+	acc := giBytes(sg.account.BytesBE())
+	if m() {
+		acc = []*gitem{giBytes(sg.account.BytesBE()[:19]), {kind: 'U', bs: sg.account.BytesBE()}, gi('N'), giInt(5)}[r.Intn(4)]
+	}
+	sc, ms := typeItem(r, sg.scopes, p)
+	mutated = mutated || ms
+	cs := giArr('A')
+	for _, h := range sg.contracts {
+		cs.xs = append(cs.xs, giBytes(h.BytesBE()))
+	}
+	gs := giArr('A')
+	for _, g := range sg.groups {
+		gs.xs = append(gs.xs, giBytes(g.Bytes()))
+	}
+	rs := giArr('A')
+	rulesOK := true
+	for _, ru := range sg.rules {
+		ci, mc := itemFromCond(r, ru.c, p)
+		mutated = mutated || mc
+		rs.xs = append(rs.xs, giArr('A', giInt(int64(ru.action)), ci))
+		if ru.action > 1 || ru.c.depth() > transaction.MaxConditionNesting || !ru.c.widthsOK() {
+			rulesOK = false
+		}
+	}
+	for _, l := range []*gitem{cs, gs, rs} {
+		if m() {
+			switch r.Intn(4) {
+			case 0:
+				l.kind = 'R'
+			case 1:
+				l.kind, l.xs = 'N', nil
+			case 2:
+				l.xs = append(l.xs, junkItem(r))
+			default:
+				l.kind, l.xs = 'M', nil
+			}
+		}
+	}
+	it := giArr('A', acc, sc, cs, gs, rs)
+	if m() {
+		switch r.Intn(3) {
+		case 0:
+			it.kind = 'R'
+		case 1:
+			it.xs = it.xs[:4]
+		default:
+			it.xs = append(it.xs, gi('N'))
+		}
+	}
+	line := "ssi " + itemTok(it)
+	var s2 transaction.Signer
+	var err error
+	obs := hx.Safe(func() string {
+		err = s2.FromStackItem(it.real())
+		if err != nil {
+			return "err"
+		}
+		return "ok " + realSignerTok(&s2)
+	})
+	o.Line(line, obs)
+	switch {
+	case obs == "panic":
+		o.Fail("signer-item-decoder-panic", k, "input=%s", line)
+	case err != nil:
+		o.Count("shapes:signer-item=err")
+		if !mutated && rulesOK && len(sg.contracts) <= 16 {
+			o.Fail("signer-item-decoder-rejects-valid", k, "input=%s err=%v", line, err)
+		}
+	default:
+		o.Count("shapes:signer-item=ok")
+		bad := len(s2.AllowedContracts) > 16 || len(s2.AllowedGroups) > 16 || len(s2.Rules) > 16
+		for _, ru := range s2.Rules {
+			d, wok := realDepthWidth(ru.Condition)
+			if (ru.Action != transaction.WitnessAllow && ru.Action != transaction.WitnessDeny) || d > transaction.MaxConditionNesting || !wok {
+				bad = true
+			}
+		}
+		if bad {
+			o.Fail("signer-item-decoder-admits-invalid", k, "input=%s decoded=%s", line, realSignerTok(&s2))
+		}
+		if !mutated && realSignerTok(&s2) != realSignerTok(ptrSigner(sg.real())) {
+			o.Fail("signer-item-decoder-wrong-value", k, "input=%s decoded=%s", line, realSignerTok(&s2))
+		}
+	}
+	o.Seen(line)
+}
+
+func ptrSigner(s transaction.Signer) *transaction.Signer { return &s }
+
 func runShapesCase(o *hx.Out, k int, r *prng.R, u *universe) {
+	runSignerItemCase(o, k, r, u)
 	var t *cond
 	switch r.Intn(5) {
 	case 0:
